@@ -149,8 +149,10 @@ def one_input(ctx, spec, work, tag):
                 if not pieces or len(pieces) < 2:
                     continue
                 paths = []
+                names = rng.sample(["9", "10", "11", "1", "2", "a", "B", "c", "07", "100"], len(pieces))
                 for i, recs in enumerate(pieces):
-                    paths.append(vcfgen.materialise(spec, pathlib.Path(work) / f"{tag}_part{i}", kind, records=recs,
+                    # file names must not encode the genomic order (results are sorted by path internally)
+                    paths.append(vcfgen.materialise(spec, pathlib.Path(work) / f"{tag}_part{names[i]}", kind, records=recs,
                                                     block_size=rng.choice([300, 0xFF00])))
                 rng.shuffle(paths)
                 convlib.explode(icf, paths, partitions=rng.choice([len(paths), 2 * len(paths), 7]), column_chunk_size=16)
@@ -175,7 +177,8 @@ def run(ctx):
         if ctx.search_mode:
             n *= 2
         for k in range(n):
-            spec = vcfgen.rich_file(ctx.rng, nrec=ctx.rng.choice([6, 15, 40, 90]), ploidies=(2,) if k % 2 else (1, 2))
+            spec = vcfgen.rich_file(ctx.rng, nrec=ctx.rng.choice([6, 15, 40, 90]), ploidies=(2,) if k % 2 else (1, 2),
+                                    shuffle_contig_blocks=(k % 2 == 0), ncontig=(ctx.rng.choice([2, 3]) if k % 2 == 0 else None))
             if len(spec["records"]) >= 2:
                 one_input(ctx, spec, work, f"i{k}")
             for p in pathlib.Path(work).glob(f"i{k}*"):
